@@ -27,9 +27,9 @@ P = {
  "C07": ("exploration", "exhaustive-inputs", "exhaustive enumeration of an extreme-value alphabet over every public entry point, two build profiles, every call under catch_unwind + fault handler + hang watchdog",
          "Every access/query entry point of slices, regions, guest memory, bitmaps and stream helpers x boundary and extreme addresses/lengths/counts x layouts at the bottom and top of the address space; each call under catch_unwind plus a SIGABRT/SIGSEGV/SIGFPE handler that attributes the fault to the call, with a watchdog for calls that do not return, in the overflow-checked and in the release profile.",
          "Alphabet of boundary/extreme values, not all 2^64; program-controlled arguments (types, enlarge amounts, non-power-of-two alignments, array indices) excluded as documented.", "2/C07"),
- "C08": ("model_checking", "E3-sched", "stateless DFS over all interleavings of real threads under a controlled scheduler (hooked atomics), multinomial self-check",
-         "All interleavings (unbounded for the small harnesses, preemption-bounded where stated) of 2..3 real threads marking, resetting, harvesting and cloning one AtomicBitmap whose pages share a word or straddle two words; every schedule is an execution of the real code; per-page conservation oracle.",
-         "SC interleavings of whole atomic operations; interception by type through hook H2.", "2/C08"),
+ "C08": ("model_checking", "E3-sched", "stateless DFS over all interleavings of real threads under a controlled scheduler (hooked atomics, multinomial self-check), plus loom exploration of the same bitmap code under the C11 memory model",
+         "All interleavings (unbounded for the small harnesses, preemption-bounded where stated) of 2..3 real threads marking, resetting, harvesting and cloning one AtomicBitmap whose pages share a word or straddle two words; every schedule is an execution of the real code; per-page conservation oracle. A second engine, loom, enumerates every C11-consistent execution (interleavings and weak-memory reorderings) of smaller harnesses on the bitmap source compiled from the tree with loom's atomics.",
+         "E3: SC interleavings of whole atomic operations, interception by type through hook H2. loom: its model of the C11 memory model; the bitmap source is copied from the tree with only the atomic import switched.", "2/C08"),
  "C09": ("model_checking", "E1-bfs", "explicit-state BFS to a fixpoint over all public bitmap operations on tiny bitmaps, BTreeSet page-set model; exhaustive ranges on word-boundary configurations",
          "Closure over all operation sequences on bitmaps of <= 6 pages (state = complete concrete bitmap state), plus every (start,len) from boundary alphabets on 63..129-page and non-power-of-two configurations; model comparison of every observable after every step.",
          "enlarge() bounded in total growth; page sizes {1,2,3} for the closure.", "2/C09"),
@@ -117,6 +117,8 @@ def main():
              "kind_free_text": "stateless choice-tree DFS by re-execution with a deviation bound (preemptions / non-default environment answers)"},
             {"name": "E3-sched", "path": "harness/src/sched.rs", "serves_properties": ["C08", "C11", "C06"],
              "kind_free_text": "controlled scheduler over real OS threads; scheduling points at every hooked atomic / lock / swap / volatile access"},
+            {"name": "loom", "path": "harness/loomcheck", "serves_properties": ["C08"],
+             "kind_free_text": "loom 0.7 (C11 memory model) over src/bitmap/backend/atomic_bitmap.rs copied from the tree with loom atomics"},
             {"name": "exhaustive-inputs", "path": "harness/src/props", "serves_properties": ["C02", "C07", "C13", "C15", "C18", "C19", "C20"],
              "kind_free_text": "complete enumeration of a stated finite input space against a reference model"},
         ],
